@@ -3,6 +3,8 @@ package h_c15
 import (
 	sdkmath "cosmossdk.io/math"
 	sdk "github.com/cosmos/cosmos-sdk/types"
+	authtypes "github.com/cosmos/cosmos-sdk/x/auth/types"
+	ctypes "github.com/elys-network/elys/x/commitment/types"
 	ammtypes "github.com/elys-network/elys/x/amm/types"
 	vrf "github.com/elys-network/elys/zzvrf"
 	"github.com/elys-network/elys/zzvrf/wire"
@@ -49,4 +51,42 @@ func H_AmmMigration_MatchAmmBalances() {
 	vrf.CheckSupply()
 	vrf.AssertExcept(env.W.SupplyOf("uusdc").Equal(hu), "C15: the supply of the base stablecoin is unchanged by the amm migration", "C15-amm-migration-mints", true)
 	vrf.AssertExcept(env.W.SupplyOf("uatom").Equal(ha), "C15: the supply of a traded asset is unchanged by the amm migration", "C15-amm-migration-mints", true)
+}
+
+// A claim that releases both the native token and a non-native vesting denom (a second vesting
+// program whose payout the module was pre-funded with): only the native part may be minted.
+//vrf:cover claimed
+//vrf:bound 2 vesting entries (uelys and uusdc vesting denoms), totals, claimed amounts, heights symbolic
+func H_ClaimVesting_MixedDenoms() {
+	env := wire.New(wire.Opts{})
+	h := vrf.I64("height", 1, 1<<40)
+	env.Ctx = vrf.SetBlock(env.Ctx, h, 1000)
+	ctx := env.Ctx
+	env.Comm.SetParams(ctx, ctypes.DefaultParams())
+	alice := sdk.AccAddress([]byte("alice_______________"))
+	mod := authtypes.NewModuleAddress(ctypes.ModuleName)
+	var toks []*ctypes.VestingTokens
+	for _, d := range []string{"uelys", "uusdc"} {
+		tot, cl := vrf.Int("total_"+d), vrf.Int("claimed_"+d)
+		start, n := vrf.I64("start_"+d, 1, 1<<40), vrf.I64("numBlocks_"+d, 1, 1<<40)
+		vrf.Assume(tot.IsPositive())
+		vrf.Assume(!cl.IsNegative())
+		vrf.Assume(cl.LT(tot))
+		vrf.Assume(h >= start)
+		toks = append(toks, &ctypes.VestingTokens{Denom: d, TotalAmount: tot, ClaimedAmount: cl, StartBlock: start, NumBlocks: n, VestStartedTimestamp: 1})
+		if d == "uusdc" {
+			env.W.SetBal(mod, d, tot) // the program's payout was funded up front
+			env.W.Supply[d] = tot
+		}
+	}
+	c := env.Comm.GetCommitments(ctx, alice)
+	c.VestingTokens = toks
+	env.Comm.SetCommitments(ctx, c)
+	s0 := env.W.SupplyOf("uusdc")
+	if _, err := env.Comm.ClaimVesting(ctx, &ctypes.MsgClaimVesting{Sender: alice.String()}); err != nil {
+		return
+	}
+	vrf.Cover("claimed")
+	vrf.CheckSupply()
+	vrf.Assert(env.W.SupplyOf("uusdc").Equal(s0), "C15: a vesting claim does not change the supply of a non-native vesting denom")
 }
